@@ -51,12 +51,30 @@ type refServer struct {
 	streamUp chan struct{}
 	upOnce   sync.Once
 	done     chan struct{}
-	fail503  atomic.Bool // answer the next tools/list with 503
+	fail503  atomic.Bool  // answer the next tools/list with 503
+	failInit atomic.Value // "503" | "type": fail the next handshake's first request (initialize POST / legacy connect) that way
+}
+
+// failedFirst answers the first request of a handshake with the failure that was ordered (once).
+func (s *refServer) failedFirst(w http.ResponseWriter) bool {
+	how, _ := s.failInit.Swap("").(string)
+	switch how {
+	case "503":
+		http.Error(w, "warming up", 503)
+		return true
+	case "type":
+		w.Header().Set("Content-Type", "text/plain")
+		w.WriteHeader(200)
+		io.WriteString(w, "not what you expected")
+		return true
+	}
+	return false
 }
 
 func newRefServer(legacy bool, sid string) *refServer {
 	s := &refServer{legacy: legacy, sid: sid, changed: make(chan struct{}), push: make(chan string, 16),
 		streamUp: make(chan struct{}), done: make(chan struct{})}
+	s.failInit.Store("")
 	s.ts = httptest.NewUnstartedServer(http.HandlerFunc(s.serve))
 	s.ts.Config.ErrorLog = hk.QuietStdLog()
 	s.ts.Start()
@@ -200,6 +218,9 @@ func (s *refServer) serveStreamable(w http.ResponseWriter, r *http.Request, rc r
 			http.Error(w, "busy", 503)
 			return
 		}
+		if rc.RPC == "initialize" && s.failedFirst(w) {
+			return
+		}
 		if rc.RPC == "initialize" {
 			w.Header().Set("Mcp-Session-Id", s.sid)
 			s.mu.Lock()
@@ -225,6 +246,9 @@ func (s *refServer) serveStreamable(w http.ResponseWriter, r *http.Request, rc r
 func (s *refServer) serveLegacy(w http.ResponseWriter, r *http.Request, rc rec) {
 	switch {
 	case r.URL.Path == ssePath && rc.Kind == "connect":
+		if s.failedFirst(w) {
+			return
+		}
 		s.stream(w, r, fmt.Sprintf("event: endpoint\ndata: %s?sessionId=%s\n\n", sseMsgPath, s.sid),
 			func(n int, msg string) string { return fmt.Sprintf("event: message\ndata: %s\n\n", msg) })
 	case r.URL.Path == sseMsgPath && r.Method == http.MethodPost:
